@@ -22,12 +22,20 @@ Terms are nested tuples (hashable, printable):
   ('elem', iter_term, loop_id)         the element a ``for`` loop draws from iter_term
   ('idx', t, i)                        i-th component of a tuple-unpacked value
   ('phi', (t..))                       merge of several reaching definitions
+  ('gate', test, a, b)                 merge after an if statement: a when test held, b otherwise (only in Event.raw /
+                                       raw_target / raw_guards; the default view of an event has gates flattened to phi)
   ('carried', name, loop_id)           value left over from a previous loop iteration (or undefined)
   ('undef', name)                      no reaching definition on this path
   ('comp', kind, elt, ((('names', n..), iter, (conds..))..))    comprehension; bound names are ('bound', n)
   ('local', name, alloc_id, init)     a local bound to a freshly allocated container (identity kept so that
                                        later mutations -- stores, .append, .sort -- can be related to it)
   ('lambda', text) ('starred', t) ('fstr', (t..)) ('exc', name)   ('unknown', text)
+
+canonical forms produced by canon() (applied by facts.FCtx to every event):
+  ('fmt', (part..))                    string built from literal pieces ('const', str) and values, whatever the spelling:
+                                       '%s-%s' % (a, b), '{}-{}'.format(a, b), f'{a}-{b}', a + '-' + b
+  ('spec', spec, t)                    a value formatted with a conversion other than plain str (%d, %02d, !r ...)
+  ('keyfn', 'item'|'attr', name)       lambda x: x[name] / operator.itemgetter(name);  lambda x: x.name / attrgetter
 """
 from __future__ import annotations
 
@@ -42,7 +50,7 @@ UNARY = {ast.Not: "not", ast.USub: "-", ast.UAdd: "+", ast.Invert: "~"}
 
 
 class Event(object):
-    __slots__ = ("kind", "target", "value", "guards", "loops", "node", "seq", "extra")
+    __slots__ = ("kind", "target", "value", "guards", "loops", "node", "seq", "extra", "raw", "raw_target", "raw_guards")
 
     def __init__(self, kind, target, value, guards, loops, node, seq, extra=None):
         self.kind = kind          # 'store' | 'call' | 'raise' | 'return' | 'del' | 'augstore'
@@ -102,6 +110,8 @@ def show(t, depth=0):
         return "{" + ", ".join("%s: %s" % (show(a), show(b)) for a, b in t[1]) + "}"
     if k == "ifexp":
         return "(%s if %s else %s)" % (show(t[2]), show(t[1]), show(t[3]))
+    if k == "gate":
+        return "gate(%s ? %s : %s)" % (show(t[1]), show(t[2]), show(t[3]))
     if k == "elem":
         return "elem#%s(%s)" % (t[2], show(t[1]))
     if k == "idx":
@@ -120,6 +130,12 @@ def show(t, depth=0):
         return "*" + show(t[1])
     if k == "fstr":
         return "f'" + "".join(show(x) for x in t[1]) + "'"
+    if k == "fmt":
+        return "fmt'" + "".join(x[1] if x[0] == "const" and isinstance(x[1], str) else "{%s}" % show(x) for x in t[1]) + "'"
+    if k == "spec":
+        return "%s:%s" % (show(t[2]), t[1])
+    if k == "keyfn":
+        return "key<%s %s>" % (t[1], t[2])
     return "%s<%s>" % (k, ",".join(str(x) for x in t[1:]))
 
 
@@ -142,7 +158,7 @@ def walk(t):
 
 _KINDS = set(["const", "param", "global", "attr", "sub", "call", "binop", "unary", "boolop", "cmp", "tuple", "list",
               "set", "dict", "ifexp", "elem", "idx", "phi", "carried", "undef", "comp", "lambda", "starred", "fstr",
-              "exc", "unknown", "bound", "slice", "local"])
+              "exc", "unknown", "bound", "slice", "local", "fmt", "spec", "keyfn", "gate"])
 
 
 def children(t):
@@ -176,6 +192,220 @@ def subst(t, fn):
         r = fn(new)
         return new if r is None else r
     return tuple(subst(x, fn) for x in t)
+
+
+import re as _re
+import string as _string
+
+_PCT = _re.compile(r"%(?:\((\w+)\))?([#0\- +]*\d*(?:\.\d+)?[a-zA-Z%])")
+
+
+def fmt(*parts):
+    """canonical string-building term; plain strings are literal pieces"""
+    flat = []
+    for x in parts:
+        if isinstance(x, str):
+            x = ("const", x)
+        for y in (x[1] if x[0] == "fmt" else (x,)):
+            if y[0] == "const" and isinstance(y[1], str):
+                if y[1] == "":
+                    continue
+                if flat and flat[-1][0] == "const" and isinstance(flat[-1][1], str):
+                    flat[-1] = ("const", flat[-1][1] + y[1])
+                    continue
+            flat.append(y)
+    return ("fmt", tuple(flat))
+
+
+def _fmt_percent(tmpl, rhs):
+    pieces = []
+    pos = 0
+    n = 0
+    args = list(rhs[1]) if rhs[0] == "tuple" else None
+    for m in _PCT.finditer(tmpl):
+        pieces.append(tmpl[pos:m.start()])
+        pos = m.end()
+        name, spec = m.group(1), m.group(2)
+        if spec == "%":
+            pieces.append("%")
+            continue
+        if name is not None:
+            val = ("sub", rhs, ("const", name))
+            if rhs[0] == "dict":
+                hit = [v for k, v in rhs[1] if k == ("const", name)]
+                if len(hit) != 1:
+                    return None
+                val = hit[0]
+        elif args is not None:
+            if n >= len(args):
+                return None
+            val = args[n]
+        else:
+            if n >= 1:
+                return None
+            val = rhs
+        n += 1
+        pieces.append(val if spec == "s" else ("spec", "!r" if spec == "r" else ":" + spec, val))
+    pieces.append(tmpl[pos:])
+    if "%" in "".join(x for x in pieces if isinstance(x, str) and x != "%") and False:
+        return None
+    if args is not None and n != len(args):
+        return None
+    return fmt(*pieces)
+
+
+def _fmt_format(tmpl, args, kws):
+    pieces = []
+    auto = 0
+    try:
+        parsed = list(_string.Formatter().parse(tmpl))
+    except ValueError:
+        return None
+    kw = dict((k, v) for k, v in kws if k != "**")
+    star = [v for k, v in kws if k == "**"]
+    for lit, field, spec, conv in parsed:
+        pieces.append(lit)
+        if field is None:
+            continue
+        head = _re.match(r"^(\w*)(.*)$", field)
+        name, rest = head.group(1), head.group(2)
+        if rest:
+            return None
+        if name == "":
+            idx = auto
+            auto += 1
+        elif name.isdigit():
+            idx = int(name)
+        else:
+            idx = None
+        if idx is not None:
+            if idx >= len(args) or args[idx][0] == "starred":
+                return None
+            val = args[idx]
+        elif name in kw:
+            val = kw[name]
+        elif len(star) == 1:
+            val = ("sub", star[0], ("const", name))
+        else:
+            return None
+        if spec or conv:
+            val = ("spec", "%s%s" % ("!" + conv if conv else "", ":" + spec if spec else ""), val)
+        pieces.append(val)
+    return fmt(*pieces)
+
+
+def _keyfn_of_lambda(text):
+    try:
+        node = ast.parse(text, mode="eval").body
+    except SyntaxError:
+        return None
+    if not isinstance(node, ast.Lambda) or len(node.args.args) != 1 or node.args.defaults or node.args.vararg or node.args.kwarg:
+        return None
+    a = node.args.args[0].arg
+    b = node.body
+    if isinstance(b, ast.Subscript) and isinstance(b.value, ast.Name) and b.value.id == a and isinstance(b.slice, ast.Constant):
+        return ("keyfn", "item", b.slice.value)
+    if isinstance(b, ast.Attribute) and isinstance(b.value, ast.Name) and b.value.id == a:
+        return ("keyfn", "attr", b.attr)
+    return None
+
+
+_CONSUMERS = ("sorted", "set", "frozenset", "list", "tuple", "any", "all", "sum", "min", "max", "dict")
+
+
+def canon(t):
+    """spelling-independent forms of string building and of sort keys (see the module docstring)"""
+    def is_str(x):
+        return (x[0] == "const" and isinstance(x[1], str)) or x[0] == "fmt"
+
+    def fn(x):
+        k = x[0]
+        if k == "binop" and x[1] == "%" and x[2][0] == "const" and isinstance(x[2][1], str):
+            return _fmt_percent(x[2][1], x[3])
+        if k == "call" and x[1][0] == "attr" and x[1][2] == "format" and x[1][1][0] == "const" and isinstance(x[1][1][1], str):
+            return _fmt_format(x[1][1][1], x[2], x[3])
+        if k == "fstr":
+            return fmt(*x[1])
+        if k == "fmt":
+            r = fmt(*x[1])
+            return r if r != x else None
+        if k == "binop" and x[1] == "+" and (is_str(x[2]) or is_str(x[3])) and not (x[2][0] == "const" and x[3][0] == "const"):
+            return fmt(x[2], x[3])
+        if k == "call" and x[2] and x[2][0][0] == "comp" and x[2][0][1] == "list" and (
+                (x[1][0] == "global" and x[1][1] in _CONSUMERS) or (x[1][0] == "attr" and x[1][2] in ("join", "extend", "update"))):
+            # a list comprehension consumed on the spot is as good as a generator expression
+            return ("call", x[1], (("comp", "gen") + x[2][0][2:],) + x[2][1:], x[3])
+        if k == "lambda":
+            return _keyfn_of_lambda(x[1])
+        if k == "call" and x[1] in (("global", "operator.itemgetter"), ("global", "itemgetter")) and len(x[2]) == 1 and x[2][0][0] == "const":
+            return ("keyfn", "item", x[2][0][1])
+        if k == "call" and x[1] in (("global", "operator.attrgetter"), ("global", "attrgetter")) and len(x[2]) == 1 \
+                and x[2][0][0] == "const" and isinstance(x[2][0][1], str) and "." not in x[2][0][1]:
+            return ("keyfn", "attr", x[2][0][1])
+        return None
+    return subst(t, fn)
+
+
+def degate(t):
+    """the path-insensitive view: gate(test, a, b) -> phi(a, b), nested phis flattened"""
+    def fn(x):
+        if x[0] == "gate":
+            x = ("phi", (x[2], x[3]))
+        if x[0] == "phi":
+            flat = []
+            for a in x[1]:
+                for b in (a[1] if a[0] == "phi" else (a,)):
+                    if b not in flat:
+                        flat.append(b)
+            return flat[0] if len(flat) == 1 else ("phi", tuple(flat))
+        return None
+    return subst(t, fn)
+
+
+def truth(t, decide):
+    """truth value of a term under ``decide`` (term -> True/False/None for atoms): True / False / None (undecided).
+    and/or/not, conditional expressions and comparisons with constants folded by ``decide`` are interpreted"""
+    d = decide(t)
+    if d is not None:
+        return d
+    k = t[0]
+    if k == "const":
+        return bool(t[1])
+    if k == "unary" and t[1] == "not":
+        v = truth(t[2], decide)
+        return None if v is None else (not v)
+    if k == "boolop":
+        vals = [truth(x, decide) for x in t[2]]
+        if t[1] == "and":
+            if any(v is False for v in vals):
+                return False
+            return True if all(v is True for v in vals) else None
+        if any(v is True for v in vals):
+            return True
+        return False if all(v is False for v in vals) else None
+    if k in ("ifexp", "gate"):
+        c = truth(t[1], decide)
+        if c is None:
+            a, b = truth(t[2], decide), truth(t[3], decide)
+            return a if a == b else None
+        return truth(t[2] if c else t[3], decide)
+    if k == "cmp" and len(t[1]) == 1 and t[1][0] in ("is not", "!=", "not in"):
+        pos = {"is not": "is", "!=": "==", "not in": "in"}[t[1][0]]
+        v = decide(("cmp", (pos,), t[2]))
+        return None if v is None else (not v)
+    return None
+
+
+def select(t, decide):
+    """the value of a term on the paths described by ``decide``: gates and conditional expressions whose test is decided are
+    replaced by the chosen branch (innermost first, so tests are themselves evaluated on those paths)"""
+    def fn(x):
+        if x[0] in ("gate", "ifexp"):
+            c = truth(x[1], decide)
+            if c is not None:
+                return x[2] if c else x[3]
+        return None
+    return canon(subst(t, fn))
 
 
 def phi_form(t):
@@ -252,6 +482,13 @@ def attr_chain(t):
     return None
 
 
+def attr_chain_term(root, names):
+    t = root
+    for n in names:
+        t = ("attr", t, n)
+    return t
+
+
 def attr_chains(t):
     """maximal attribute chains occurring in a term"""
     out = []
@@ -308,6 +545,43 @@ def root_of(t):
     return None
 
 
+_KEYS = ("keys", "iterkeys", "viewkeys")
+_VALUES = ("values", "itervalues", "viewvalues")
+_ITEMS = ("items", "iteritems", "viewitems")
+
+
+def dict_iter(it):
+    """an iterable drawn from a mapping, whatever the spelling: -> (kind, canonical iterable, mapping) with kind in
+    'keys' | 'values' | 'items' | None.  The canonical iterable is the mapping itself (or sorted(mapping) / list(mapping)):
+    iterating a mapping yields its keys, values are mapping[key]."""
+    def strip(x):
+        if x[0] == "call" and x[1][0] == "attr" and not x[2] and not x[3]:
+            for kind, names in (("keys", _KEYS), ("values", _VALUES), ("items", _ITEMS)):
+                if x[1][2] in names:
+                    return kind, x[1][1]
+        if x[0] == "call" and x[1][0] == "global" and len(x[2]) == 1 and not x[3]:
+            for kind, names in (("keys", _KEYS), ("values", _VALUES), ("items", _ITEMS)):
+                if x[1][1] in tuple("six." + n for n in names):
+                    return kind, x[2][0]
+        return None, x
+    k, d = strip(it)
+    if k and d == ("param", "self"):
+        return None, it, None         # self.keys() inside a mapping class is that class's own (possibly overridden) method
+    if k:
+        return k, d, d
+    if it[0] == "call" and it[1] in (("global", "sorted"), ("global", "list"), ("global", "tuple")) and len(it[2]) == 1:
+        k, d = strip(it[2][0])
+        srt = it[1] == ("global", "sorted")
+        if k == "keys":
+            return k, ("call", it[1], (d,), it[3]), d
+        if k == "items" and (not srt or not it[3]):
+            # sorting (key, value) pairs of a mapping is sorting its keys
+            return k, ("call", it[1], (d,), ()), d
+        if k == "values" and not srt:
+            return k, ("call", it[1], (d,), ()), d
+    return None, it, None
+
+
 class Extractor(object):
     """Run over one FunctionDef; result: .events (ordered), .env_at_exit, .params"""
 
@@ -322,14 +596,17 @@ class Extractor(object):
             self._counters = {"seq": 0, "loop": 0, "alloc": 0}
             self.locals_alloc = {}
             self.loop_pre = {}
+            self.loop_guards = {}        # loop id -> guards in force at the loop statement
         else:
             # a nested extractor (inlined callee) shares the event list and the id counters of its caller
             self.events = parent.events
             self._counters = parent._counters
             self.locals_alloc = parent.locals_alloc
             self.loop_pre = parent.loop_pre
+            self.loop_guards = parent.loop_guards
         self._exit_envs = {}
         self.return_values = []      # inlined callee: (value, guards relative to the call) per return statement
+        self._nobreak = {}
         self._pending_guards = []    # guards established by an inlined callee that can only return normally under them
         self._last_block_guards = ()
         self.params = [a.arg for a in func_node.args.posonlyargs + func_node.args.args + func_node.args.kwonlyargs]
@@ -354,8 +631,10 @@ class Extractor(object):
         env.update(self._init_env)
         n0 = len(env_guards)
         self._env_guard_len = n0
+        self._env_loop_len = len(env_loops)
         self.falls_through, self.env_end = self.block(self.func.body, env, env_guards, env_loops)
-        exits = list(self.return_values)
+        in_loop = any(x[2] for x in self.return_values)
+        exits = [(v, gs) for v, gs, _ in self.return_values]
         if self.falls_through:
             exits.append((("const", None), tuple(self._last_block_guards[n0:])))
         if not exits:
@@ -364,10 +643,10 @@ class Extractor(object):
         common = [g for g in exits[0][1] if all(g in e[1] for e in exits[1:])]
         self.parent._pending_guards.extend(g for g in common if g not in self.parent._pending_guards)
         exits = [(v, tuple(g for g in gs if g not in common)) for v, gs in exits]
-        return self._decision(exits)
+        return self._decision(exits, chain_ok=not in_loop)
 
     @classmethod
-    def _decision(cls, exits):
+    def _decision(cls, exits, chain_ok=True):
         """the value of an inlined call as a decision tree over the guards of its return statements"""
         uniq = []
         for v, _ in exits:
@@ -381,7 +660,13 @@ class Extractor(object):
             yes = [(v, gs[1:]) for v, gs in exits if gs[0][1] is True]
             no = [(v, gs[1:]) for v, gs in exits if gs[0][1] is False]
             if yes and no:
-                return ("ifexp", test, cls._decision(yes), cls._decision(no))
+                return ("ifexp", test, cls._decision(yes, chain_ok), cls._decision(no, chain_ok))
+        if chain_ok and exits[0][1]:
+            # structured, loop-free code: an exit is taken when its guards hold and no earlier exit was taken
+            v, gs = exits[0]
+            conds = tuple(t if pol else ("unary", "not", t) for t, pol in gs)
+            cond = conds[0] if len(conds) == 1 else ("boolop", "and", conds)
+            return ("ifexp", cond, v, cls._decision(exits[1:], chain_ok))
         return ("phi", tuple(uniq))
 
     # ---- helpers ------------------------------------------------------------------------------------
@@ -472,7 +757,7 @@ class Extractor(object):
             return ("const", node.value)
         if isinstance(node, ast.Name):
             if bound and node.id in bound:
-                return ("bound", node.id)
+                return bound[node.id]
             if node.id in env:
                 return env[node.id]
             if node.id in self.local_names:
@@ -504,6 +789,8 @@ class Extractor(object):
                     args.append(E(a))
             kws = tuple((k.arg or "**", E(k.value)) for k in node.keywords)
             t = ("call", func, tuple(args), kws)
+            if func == ("global", "getattr") and len(args) == 2 and not kws and args[1][0] == "const" and isinstance(args[1][1], str):
+                return ("attr", args[0], args[1][1])      # getattr(x, "name") is x.name
             if self.inliner is not None and not bound and self.depth < 2:
                 tgt = self.inliner(func, args, kws)
                 if tgt is not None:
@@ -539,14 +826,35 @@ class Extractor(object):
         if isinstance(node, ast.IfExp):
             return ("ifexp", E(node.test), E(node.body), E(node.orelse))
         if isinstance(node, (ast.ListComp, ast.SetComp, ast.GeneratorExp, ast.DictComp)):
-            b = set(bound or ())
+            # bound variables are renamed positionally ($0, $1 ..: one per generator, the element drawn), so that the spelling
+            # of comprehension variables does not matter; tuple targets become components of the element
+            b = dict(bound or {})
             gens = []
             for g in node.generators:
                 it = self.expr(g.iter, env, guards, loops, b)
-                names = ("names",) + tuple(sorted(self._assigned_names([ast.Assign(targets=[g.target], value=ast.Constant(None))])))
-                b |= set(names[1:])
+                kind, it, d = dict_iter(it)
+                var = ("bound", "$%d" % len(set(v for v in b.values() if v[0] == "bound") | set(
+                    x for v in b.values() for x in walk(v) if x[0] == "bound")))
+                el = var
+                if kind == "values":
+                    el = ("sub", d, var)
+                elif kind == "items":
+                    el = ("tuple", (var, ("sub", d, var)))
+
+                def bind_names(t, v):
+                    if isinstance(t, ast.Name):
+                        b[t.id] = v
+                    elif isinstance(t, (ast.Tuple, ast.List)):
+                        for i, e in enumerate(t.elts):
+                            if v[0] == "tuple" and len(v[1]) == len(t.elts):
+                                bind_names(e, v[1][i])
+                            else:
+                                bind_names(e, ("idx", v, i))
+                    elif isinstance(t, ast.Starred):
+                        bind_names(t.value, ("unknown", "starred-rest"))
+                bind_names(g.target, el)
                 conds = tuple(self.expr(c, env, guards, loops, b) for c in g.ifs)
-                gens.append((names, it, conds))
+                gens.append((("names", var[1]), it, conds))
             if isinstance(node, ast.DictComp):
                 elt = ("tuple", (self.expr(node.key, env, guards, loops, b), self.expr(node.value, env, guards, loops, b)))
                 kind = "dict"
@@ -632,6 +940,36 @@ class Extractor(object):
             out[n] = vals[0] if len(vals) == 1 else ("phi", tuple(vals))
         return out
 
+    @staticmethod
+    def _breaks_of(stmts):
+        """does the loop body contain a ``break`` that belongs to this loop?"""
+        def rec(ss):
+            for x in ss:
+                if isinstance(x, ast.Break):
+                    return True
+                if isinstance(x, (ast.For, ast.While, ast.FunctionDef, ast.ClassDef, ast.AsyncFor)):
+                    if isinstance(x, (ast.For, ast.While)) and rec(x.orelse):
+                        return True
+                    continue
+                for fld in ("body", "orelse", "finalbody"):
+                    if rec(getattr(x, fld, []) or []):
+                        return True
+                for h in getattr(x, "handlers", []) or []:
+                    if rec(h.body):
+                        return True
+            return False
+        return rec(stmts)
+
+    @staticmethod
+    def merge_gated(test, env_a, env_b):
+        """merge after ``if test: <a> else: <b>`` keeping which value belongs to which outcome"""
+        out = {}
+        for n in set(env_a) | set(env_b):
+            a = env_a.get(n, ("undef", n))
+            b = env_b.get(n, ("undef", n))
+            out[n] = a if a == b else ("gate", test, a, b)
+        return out
+
     def _drain(self, guards):
         pend, self._pending_guards[:] = tuple(g for g in self._pending_guards if g not in guards), []
         return pend
@@ -690,7 +1028,7 @@ class Extractor(object):
             if self.parent is not None:
                 # inlined callee: not a return of the function under analysis; the value is bound, under the guards of the
                 # return statement, exactly as an assignment to a result variable would be
-                self.return_values.append((v, tuple(guards[self._env_guard_len:])))
+                self.return_values.append((v, tuple(guards[self._env_guard_len:]), len(loops) > self._env_loop_len))
                 self.emit("bind", ("bound", "<return of %s>" % self.func.name), v, guards, loops, s, extra="inlined-return")
                 return False, None, ()
             self.emit("return", None, v, guards, loops, s)
@@ -713,6 +1051,10 @@ class Extractor(object):
             env[s.name] = ("lambda", "def %s" % s.name)
             return True, env, ()
         if isinstance(s, (ast.Break, ast.Continue)):
+            if isinstance(s, ast.Break) and loops and loops[-1][0] in self._nobreak:
+                env = dict(env)
+                env[self._nobreak[loops[-1][0]]] = ("const", False)
+                self.emit("bind", ("bound", self._nobreak[loops[-1][0]]), ("const", False), guards, loops, s, extra="nobreak-flag")
             self.emit("break" if isinstance(s, ast.Break) else "continue", None, None, guards, loops, s)
             if loops:
                 self._exit_envs.setdefault(loops[-1][0], []).append(dict(env))
@@ -727,7 +1069,7 @@ class Extractor(object):
             ft_a, env_a = self.block(s.body, env, guards + ((test, True),), loops)
             ft_b, env_b = self.block(s.orelse, env, guards + ((test, False),), loops)
             if ft_a and ft_b:
-                return True, self.merge([env_a, env_b]), pg
+                return True, self.merge_gated(test, env_a, env_b), pg
             if ft_a:
                 return True, env_a, pg + ((test, True),)
             if ft_b:
@@ -735,7 +1077,15 @@ class Extractor(object):
             return False, None, ()
         if isinstance(s, (ast.For, ast.While)):
             lid = self._next("loop")
+            self.loop_guards[lid] = guards
             assigned = self._assigned_names(s.body)
+            nobreak = None
+            if s.orelse and self._breaks_of(s.body):
+                # for/else, while/else:  <flag> = True; loop: ... <flag> = False; break ...;  if <flag>: <else block>
+                nobreak = "<nobreak#%d>" % lid
+                env = dict(env)
+                env[nobreak] = ("const", True)
+                self._nobreak[lid] = nobreak
             if isinstance(s, ast.For):
                 it = E(s.iter)
                 assigned |= self._assigned_names([ast.Assign(targets=[s.target], value=ast.Constant(None))])
@@ -751,7 +1101,13 @@ class Extractor(object):
                 self.loop_pre[(n, lid)] = pre
                 env_body[n] = ("carried", n, lid) if pre is None else ("phi", (pre, ("carried", n, lid)))
             if isinstance(s, ast.For):
-                self.bind(s.target, ("elem", it, lid), env_body, guards, loops, s)
+                kind, it, d = dict_iter(it)
+                el = ("elem", it, lid)
+                if kind == "values":
+                    el = ("sub", d, el)
+                elif kind == "items":
+                    el = ("tuple", (el, ("sub", d, el)))
+                self.bind(s.target, el, env_body, guards, loops, s)
                 lp = loops + ((lid, it),)
                 g2 = guards
             else:
@@ -789,8 +1145,17 @@ class Extractor(object):
                 merged_in.append(full)
             merged = self.merge(merged_in)
             if s.orelse:
-                ft2, merged2 = self.block(s.orelse, merged, guards, loops)
-                if ft2:
+                if nobreak is not None:
+                    flag = merged.get(nobreak, ("const", True))
+                    ft2, merged2 = self.block(s.orelse, merged, guards + ((flag, True),), loops)
+                    if ft2:
+                        merged = self.merge([merged, merged2])
+                    else:
+                        return True, merged, pg + ((flag, False),)
+                else:
+                    ft2, merged2 = self.block(s.orelse, merged, guards, loops)
+                    if not ft2:
+                        return False, None, ()
                     merged = merged2
             return True, merged, pg
         if isinstance(s, ast.Try):
